@@ -128,13 +128,13 @@ Record push_post (m : mem) (own : bufid -> N) (r : repr) (s : list N) (m' : mem)
   pp_step : step_ok m own r m' r';
   pp_ok : ok = true -> text_of m' r' = text_of m r ++ s;
   pp_fail : ok = false -> r' = r /\ heap m' = heap m;
-  pp_fits : exclusive (heap m) r -> repr_len r + len s <= cap_of m r ->
+  pp_fits : xcl m r -> repr_len r + len s <= cap_of m r ->
             ok = true /\ nreq m' = nreq m /\ (forall b, names r' b = names r b) /\ is_heap r' = is_heap r;
   pp_grow : ok = true -> nreq m' = nreq m \/
             (is_heap r' = true /\ cap_of m' r' = amortized_growth (repr_len r) (len s) /\ nreq m' = nreq m + 1);
   pp_excl : ok = true -> s <> [] -> exclusive (heap m') r';
-  pp_cap : exclusive (heap m) r -> repr_len r + len s <= cap_of m r -> cap_of m' r' = cap_of m r;
-  pp_nofit : ok = true -> s <> [] -> exclusive (heap m) r -> cap_of m r < repr_len r + len s ->
+  pp_cap : xcl m r -> repr_len r + len s <= cap_of m r -> cap_of m' r' = cap_of m r;
+  pp_nofit : ok = true -> s <> [] -> xcl m r -> cap_of m r < repr_len r + len s ->
              nreq m' = nreq m + 1 /\ cap_of m' r' = amortized_growth (repr_len r) (len s);
 }.
 
@@ -199,7 +199,7 @@ Proof.
       * intros _. destruct (P7 eq_refl) as [(_ & _ & Hn)|[(Hh & _)|(_ & _ & _ & _ & Hn)]]; auto. discriminate.
       * intros _ _. exact S3.
       * intros H1 H2. destruct (P6 H1 H2) as (_ & E & Hh1 & Hn1). rewrite <- E. reflexivity.
-      * intros _ _ Hx Hlt. exfalso. destruct (P7 eq_refl) as [(E & Hh1 & Hn)|[(Hh & _)|(Hst & _)]].
+      * intros _ _ (Hq & Hx) Hlt. exfalso. destruct (P7 eq_refl) as [(E & Hh1 & Hn)|[(Hh & _)|(Hst & _)]].
         -- assert (cap_of m r = 16) by (rewrite <- E; cbn [cap_of]; apply max_inline_16). lia.
         -- discriminate.
         -- destruct r; cbn in Hst, Hx; try discriminate; contradiction.
@@ -231,7 +231,7 @@ Proof.
       * intros _ _. exact S3.
       * intros H1 H2. destruct (P6 H1 H2) as (_ & E & Hh1 & Hn1). rewrite <- E. rewrite S4.
         cbn [cap_of]. rewrite <- Hh1, Hb. reflexivity.
-      * intros _ _ Hx Hlt. destruct (P7 eq_refl) as [(E & Hh1 & Hn)|[(Hh & Hc2 & Hn)|(Hst & _)]].
+      * intros _ _ (Hq & Hx) Hlt. destruct (P7 eq_refl) as [(E & Hh1 & Hn)|[(Hh & Hc2 & Hn)|(Hst & _)]].
         -- exfalso. assert (cap_of m r = cap x) by (rewrite <- E; cbn [cap_of]; rewrite <- Hh1, Hb; reflexivity). lia.
         -- split; [lia|]. rewrite S4. cbn [cap_of] in Hc2. rewrite Hb in Hc2. exact Hc2.
         -- exfalso. destruct r; cbn in Hst, Hx; try discriminate; contradiction.
@@ -260,6 +260,10 @@ Lemma MI_same m m' own : heap m' = heap m -> MI (heap m) own -> MI (heap m') own
 Proof. intros ->. auto. Qed.
 Lemma exclusive_same m m' r : heap m' = heap m -> exclusive (heap m) r -> exclusive (heap m') r.
 Proof. intros ->. auto. Qed.
+Lemma xcl_same m m' r : same_env m m' -> heap m' = heap m -> xcl m r -> xcl m' r.
+Proof. intros He Hh (Hq & Hx). split; [eapply same_env_quiet; eauto|rewrite Hh; exact Hx]. Qed.
+Lemma xcl_same_rev m m' r : same_env m m' -> heap m' = heap m -> xcl m' r -> xcl m r.
+Proof. intros He Hh (Hq & Hx). split; [eapply same_env_quiet_rev; eauto|rewrite <- Hh; exact Hx]. Qed.
 
 (* first phase did nothing to the heap (reads only): continue from m' as if from m *)
 Lemma step_ok_after_reads m m0 own r m' r' :
@@ -281,7 +285,7 @@ Record insert_post (m : mem) (own : bufid -> N) (r : repr) (idx : N) (s : list N
   ip_nopanic : is_char_boundary (text_of m r) idx = true -> res <> RPanic PIndex /\ (forall p, res <> RPanic p);
   ip_ok : res = ROk tt -> text_of m' r' = insert_text (text_of m r) idx s;
   ip_fail : res = RErr -> r' = r /\ heap m' = heap m;
-  ip_fits : is_char_boundary (text_of m r) idx = true -> exclusive (heap m) r -> repr_len r + len s <= cap_of m r ->
+  ip_fits : is_char_boundary (text_of m r) idx = true -> xcl m r -> repr_len r + len s <= cap_of m r ->
             res = ROk tt /\ nreq m' = nreq m /\ (forall b, names r' b = names r b) /\ is_heap r' = is_heap r;
   ip_grow : res = ROk tt -> nreq m' = nreq m \/
             (is_heap r' = true /\ cap_of m' r' = amortized_growth (repr_len r) (len s) /\ nreq m' = nreq m + 1);
@@ -301,7 +305,7 @@ Lemma insert_post_unchanged m own r idx s m' res :
   same_env m m' -> heap m' = heap m ->
   (is_char_boundary (text_of m r) idx = false -> res = RPanic PIndex /\ nreq m' = nreq m) ->
   (is_char_boundary (text_of m r) idx = true ->
-     res = RErr /\ ~ (exclusive (heap m) r /\ repr_len r + len s <= cap_of m r)) ->
+     res = RErr /\ ~ (xcl m r /\ repr_len r + len s <= cap_of m r)) ->
   insert_post m own r idx s m' r res.
 Proof.
   intros HM Hr Hc He Hh Hp He2. split.
@@ -343,6 +347,7 @@ Proof.
   intros m1 r1 ok [P1 P2 P3 P4 P5 P6 P7]. unfold lift.
   rewrite (text_of_same m m0 r He0 Hh0) in P2. fold T in P2.
   rewrite (cap_of_same m m0 r Hh0) in P6. rewrite Hh0 in P6.
+  assert (P6' := fun H => P6 (xcl_same m m0 r He0 Hh0 H)). clear P6. rename P6' into P6.
   destruct ok; cbn [negb].
   2:{ destruct (P5 eq_refl) as (-> & Hh1). apply wp_ret. apply HQ. apply insert_post_unchanged; auto.
       - eapply same_env_trans; [exact He0|]. exact (so_env _ _ _ _ _ P1).
@@ -443,7 +448,7 @@ Record remove_post (m : mem) (own : bufid -> N) (r : repr) (idx : N) (m' : mem) 
   rm_ok : forall c, res = ROk c ->
           text_of m' r' = remove_text (text_of m r) idx /\ c = decode_cp (first_char (skipn (N.to_nat idx) (text_of m r)));
   rm_fail : res = RErr -> r' = r /\ heap m' = heap m;
-  rm_excl : remove_ok_idx (text_of m r) idx = true -> exclusive (heap m) r ->
+  rm_excl : remove_ok_idx (text_of m r) idx = true -> xcl m r ->
             (exists c, res = ROk c) /\ nreq m' = nreq m /\ (forall b, names r' b = names r b) /\ is_heap r' = is_heap r;
 }.
 
@@ -451,7 +456,7 @@ Lemma remove_post_unchanged m own r idx m' res :
   MI (heap m) own -> handle_ok (heap m) (statics m) r -> counted own r ->
   same_env m m' -> heap m' = heap m ->
   (remove_ok_idx (text_of m r) idx = false -> res = RPanic PIndex /\ nreq m' = nreq m) ->
-  (remove_ok_idx (text_of m r) idx = true -> res = RErr /\ ~ exclusive (heap m) r) ->
+  (remove_ok_idx (text_of m r) idx = true -> res = RErr /\ ~ xcl m r) ->
   remove_post m own r idx m' r res.
 Proof.
   intros HM Hr Hc He Hh Hp He2. split.
@@ -511,6 +516,7 @@ Proof.
   apply (ensure_modifiable_wp m0 own r); [eapply MI_same; eauto|eapply handle_ok_same; eauto|exact Hc|].
   intros m1 r1 ok [P1 P2 P3 P4 P5 P6]. unfold lift.
   rewrite (text_of_same m m0 r He0 Hh0) in P2. fold T in P2. rewrite Hh0 in P6.
+  assert (P6' := fun H => P6 (xcl_same m m0 r He0 Hh0 H)). clear P6. rename P6' into P6.
   destruct ok; cbn [negb].
   2:{ destruct (P5 eq_refl) as (-> & Hh1). apply wp_ret. apply HQ. apply remove_post_unchanged; auto.
       - eapply same_env_trans; [exact He0|]. exact (so_env _ _ _ _ _ P1).
